@@ -80,6 +80,7 @@ def canon_str(e, names=None):
         if k == 'un': return '%s(%s)' % (x[1], render(x[2]))
         if k == 'fld': return '%s%s' % (render(x[1]), ''.join('.%s' % (_fs(y),) for y in x[2]))
         if k == 'len': return 'len(%s)' % render(x[1])
+        if k == 'agg' and x[1] == 'RangeTo' and len(x) == 3: return 'Range(0, %s)' % render(x[2])       # `..n` is `0..n`
         if k == 'agg': return '%s(%s)' % (x[1], ', '.join(render(y) for y in x[2:]))
         return expr_str(x, names)
     def render(x):
